@@ -1030,6 +1030,11 @@ def _async_worker(
         elif not _survives_pickling(error_message):
             error_message = str(error_message)
         error_queue.put((index, error_type, error_message, trace))
+        # put() only hands the report to the queue's feeder thread. Flush it before announcing the
+        # failure, otherwise a worker that dies while cleaning up takes the report with it and the
+        # parent waits for it forever
+        error_queue.close()
+        error_queue.join_thread()
         pipe.send((None, False))
 
     finally:
